@@ -59,11 +59,31 @@ impl AnyCase {
     /// Strictly simpler variants, most aggressive first.
     pub fn shrink_candidates(&self) -> Vec<AnyCase> {
         match self {
-            AnyCase::Hex(c) => c.shrink_candidates().into_iter().map(AnyCase::Hex).collect(),
-            AnyCase::New(c) => c.shrink_candidates().into_iter().map(AnyCase::New).collect(),
-            AnyCase::Crash(c) => c.shrink_candidates().into_iter().map(AnyCase::Crash).collect(),
-            AnyCase::Acct(c) => c.shrink_candidates().into_iter().map(AnyCase::Acct).collect(),
-            AnyCase::Lib(c) => c.shrink_candidates().into_iter().map(AnyCase::Lib).collect(),
+            AnyCase::Hex(c) => c
+                .shrink_candidates()
+                .into_iter()
+                .map(AnyCase::Hex)
+                .collect(),
+            AnyCase::New(c) => c
+                .shrink_candidates()
+                .into_iter()
+                .map(AnyCase::New)
+                .collect(),
+            AnyCase::Crash(c) => c
+                .shrink_candidates()
+                .into_iter()
+                .map(AnyCase::Crash)
+                .collect(),
+            AnyCase::Acct(c) => c
+                .shrink_candidates()
+                .into_iter()
+                .map(AnyCase::Acct)
+                .collect(),
+            AnyCase::Lib(c) => c
+                .shrink_candidates()
+                .into_iter()
+                .map(AnyCase::Lib)
+                .collect(),
         }
     }
 }
